@@ -234,6 +234,9 @@ func (f *Ref) Step(o Op, ob Obs) {
 		}
 	case "clock":
 		f.now += o.A
+	case "harr":
+		// no effect on the table (like `links`); the heap ARRAY itself is judged by three plain statements
+		f.heapArray(ob.Arr)
 	case "ftick":
 		f.fineTick(o, ob)
 	case "ladvance":
@@ -344,6 +347,34 @@ func (f *Ref) Step(o Op, ob Obs) {
 		if ob.Bool != want {
 			f.Finding(fmt.Sprintf("is-scheduled:%s:want-%v", tag, want), fmt.Sprintf("%s: IsScheduled(%d)=%v, want %v", tag, o.A, ob.Bool, want))
 		}
+	}
+}
+
+// heapArray: what must hold of the array of a binary min-heap ordered by (deadline, then id DESCENDING), stated on
+// the array as it lies in memory: every node knows its own slot, no child sorts before its parent, no id twice.
+func (f *Ref) heapArray(a []HeapEnt) {
+	less := func(x, y HeapEnt) bool {
+		return x.Deadline < y.Deadline || (x.Deadline == y.Deadline && x.ID > y.ID)
+	}
+	for i := range a {
+		if a[i].Index != i {
+			f.Finding("heap-array:index", fmt.Sprintf("heap: at time %d the node in slot %d (id %d) carries index %d; array (id@index:deadline) = %s", f.now, i, a[i].ID, a[i].Index, ArrText(a)))
+			break
+		}
+	}
+	for i := 1; i < len(a); i++ {
+		if p := (i - 1) / 2; less(a[i], a[p]) {
+			f.Finding("heap-array:order", fmt.Sprintf("heap: at time %d slot %d (id %d, deadline %d) sorts before its parent slot %d (id %d, deadline %d); array (id@index:deadline) = %s", f.now, i, a[i].ID, a[i].Deadline, p, a[p].ID, a[p].Deadline, ArrText(a)))
+			break
+		}
+	}
+	seen := make(map[int]int, len(a))
+	for i := range a {
+		if j, dup := seen[a[i].ID]; dup {
+			f.Finding("heap-array:dup", fmt.Sprintf("heap: at time %d id %d sits in slots %d and %d; array (id@index:deadline) = %s", f.now, a[i].ID, j, i, ArrText(a)))
+			break
+		}
+		seen[a[i].ID] = i
 	}
 }
 
